@@ -196,3 +196,8 @@ def run(ctx) -> None:
                                    "auto": st.booleans(), "spacing": st.sampled_from([0.0, 0.001, 0.2]), "target": st.sampled_from([None, None, "directed"]),
                                    "embed": st.lists(embed, min_size=4, max_size=4)}).map(mk_case)
     ctx.hyp("random", cases, lambda c: _run_one(ctx, c), ctx.n(4000, 200000))
+    # byte-level search (atheris/libFuzzer) over raw datagrams and fuzzer-chosen bodies inside well-formed envelopes; an
+    # additional search, the verdict never depends on it being available
+    from .. import fuzzrun
+    if not ctx.quick or ctx.shard < 2:
+        fuzzrun.run_atheris(ctx, "c18", 30000 if ctx.quick else 600000, check_case, max_len=400)
